@@ -137,6 +137,16 @@ def run(m: Model, r: Report, tier: str) -> None:
         r.check(isinstance(d_, ast.Constant) and d_.value is False, "R8", f"{dbeh.qualname}.{sw}#off",
                 f"switch {sw} is {ast.unparse(d_) if d_ is not None else 'inherited (on)'} in the replay server: requests the recorded ECU answered (or ignored) itself are "
                 "then answered / suppressed by the built-in rule instead of the recording", loc=dbeh.loc)
+    r.rule("R9", "the replay reads the recording as SQLite presents it to every reader: the connection is opened on the database path without URI flags that hide "
+           "committed rows (immutable / nolock skip the write-ahead log the recorder leaves behind while another process still has the database open)", floor=1)
+    dsetup = m.require_function(f"{SRV}.DBUDSServer.setup")
+    conns = [c for c in ast.walk(dsetup.node) if isinstance(c, ast.Call) and ast.unparse(c.func).endswith("aiosqlite.connect")]
+    if len(conns) != 1:
+        raise AnalysisError(f"{dsetup.qualname}: aiosqlite.connect call not found")
+    strs_ = " ".join(x.value for x in ast.walk(dsetup.node) if isinstance(x, ast.Constant) and isinstance(x.value, str))
+    flags_ = [f_ for f_ in ("immutable", "nolock") if f_ in strs_]
+    r.check(not flags_, "R9", f"{dsetup.qualname}#plain-open", f"the recording is opened with the SQLite URI flag(s) {flags_}: rows that are committed but still in the -wal file "
+            "(the recorder, a viewer or a crashed scanner kept the database open) are invisible, and the newest run is replayed as silence", loc=dsetup.loc)
     r.rule("R7", "the vecu command forwards both selectors (ECU name and properties) unaltered to the replay server, which binds both into the query", floor=3)
 
     cu = m.require_function(f"{ECU}.ECU.update_state")
